@@ -293,6 +293,9 @@ func VerifRun_C16b() {
 	if comment {
 		text += " @c"
 	}
+	if verifParamOr("TABS", 0) == 1 && verifBool("tabs") {
+		text = c16tabs(text)
+	}
 	verifObserve("line", text)
 	frag, errs := c16parse(text)
 	verifReach("parsed")
@@ -312,7 +315,7 @@ func VerifRun_C16b() {
 	if form == 7 {
 		// the enum markers carry no item after the keyword; their comment text is never used by the
 		// server, and is kept with its blank and '@' (" @c"). Only require that nothing else is in it.
-		for len(cm) > 0 && (cm[0] == ' ' || cm[0] == '@') {
+		for len(cm) > 0 && (cm[0] == ' ' || cm[0] == '\t' || cm[0] == '@') {
 			cm = cm[1:]
 		}
 	}
